@@ -7,6 +7,19 @@ CFG = {
                           "RpmVerif.C10.first_op_wf", "RpmVerif.C10.history_digests", "RpmVerif.C10.history_verify",
                           "RpmVerif.C10.history_verify_none", "RpmVerif.C10.history_verify_cleared", "RpmVerif.C10.history_keyids",
                           "RpmVerif.C10.history_keyids_cleared", "RpmVerif.C10.history_initial", "RpmVerif.C10.run_total_any",
+                          # the signing side with its failure / panic paths (Model/SignE.lean; gaps G4, G7, G8)
+                          "RpmVerif.C10.legacyTagOf_range", "RpmVerif.C10.signer_algs_subset", "RpmVerif.C10.signer_tag_total",
+                          "RpmVerif.C10.verifier_accepts_signer_keys", "RpmVerif.C10.legacyOk_discharged",
+                          "RpmVerif.C10.config_one_issuer", "RpmVerif.C10.config_created_eq", "RpmVerif.C10.timestamp_opt_total",
+                          "RpmVerif.C10.pgp_signer_sign", "RpmVerif.C10.pgp_issuerOk", "RpmVerif.C10.pgp_legacyOk", "RpmVerif.C10.pgp_algOk",
+                          "RpmVerif.C10.sign_success_eq", "RpmVerif.C10.sign_outcomes", "RpmVerif.C10.sign_fail_unchanged",
+                          "RpmVerif.C10.sign_ok_frame", "RpmVerif.C10.sign_panics_iff", "RpmVerif.C10.sign_now_eq",
+                          "RpmVerif.C10.sign_now_panics_iff", "RpmVerif.C10.clear_total",
+                          "RpmVerif.C10.runF_eq_run", "RpmVerif.C10.runF_failed_only", "RpmVerif.C10.runF_no_panic", "RpmVerif.C10.runF_panics_at",
+                          "RpmVerif.C10.historyF_total", "RpmVerif.C10.historyF_bytes", "RpmVerif.C10.historyF_digests",
+                          "RpmVerif.C10.historyF_verify", "RpmVerif.C10.historyF_verify_none", "RpmVerif.C10.historyF_keyids",
+                          "RpmVerif.C10.historyF_legacy", "RpmVerif.C10.history_verify_discharged", "RpmVerif.C10.history_keyids_discharged",
+                          "RpmVerif.C10.history_legacy_discharged", "RpmVerif.C10.pgp_history_verify", "RpmVerif.C10.pgp_history_keyids",
                           "RpmVerif.Pipeline.build_metadata_wf", "RpmVerif.Pipeline.build_payload_digest_ok", "RpmVerif.Pipeline.build_unsigned",
                           "RpmVerif.Pipeline.built_history_total", "RpmVerif.Pipeline.built_history_digests",
                           "RpmVerif.Pipeline.built_history_verify", "RpmVerif.Pipeline.built_history_verify_none",
@@ -22,14 +35,36 @@ CFG = {
             "prefix is shared). After EVERY step the real package is asked: verify_signature with each of the four public keys (4 bits), "
             "signature_key_ids(), verify_digests(), and the FNV of the serialised main header and of the payload. The model (Lean parser on the start "
             "package, Sign.step with the symbolic scheme, verifyWith / keyIds / verifyDigests with the driver's own hashes) predicts every record; "
-            "the spec is computed from the op list and the raw start bytes. Thorough tier: every fresh signature (legacy tag bytes) is additionally "
+            "the spec is computed from the op list and the raw start bytes. "
+            "Since session 5 the model of a step is Sign.attemptF / Sign.settle (Model/SignE.lean): sign_with_timestamp with the timestamp conversion, "
+            "the signer's answer and SignatureHeaderBuilder::build as fallible steps; records carry a last column (creation time of a fresh signature as "
+            "read back from the packet / error class of a refused attempt). Added step forms, run as explicit histories from every start: the instant as "
+            "u32 / SystemTime / DateTime<Utc> / DateTime<FixedOffset> incl. both ends of the range; Package::sign (by reference: impl Signing for &T); "
+            "signers that refuse (locked key: SignError; foreign implementation: KeyNotFoundError) and foreign signers whose bytes build() turns down "
+            "(no packet: NoSignatureFound; a DSA packet: UnsupportedPGPKeyType) — after each the state must be what it was; instants outside 0..2^32 "
+            "(the unwrap panics before the signer is asked: observed `P:<op>`, predicted by the model, judged dontcare — the property speaks of valid "
+            "operations; same defect class as the known finding C17 timestamp-setter-panic, label `tsoutofrange(timestamp-setter-panic)`). "
+            "Four more start packages (latin1, noncanon, swapped, extratag): the built package with a main header that is valid but not what the library "
+            "itself lays out (non-UTF-8 byte in a string; slack bytes after the store; data of two entries swapped; an extra tag below 1000), which a "
+            "sign / clear that re-built the main header would silently rewrite. Table ties: sgbuild / sgnew / vfload for every algorithm number 0..255 "
+            "(hand-made signature and key packets) against legacyTagOf / signerNew / verifierLoad (tables scraped by tools/gen/sig_algs.py); sgcfg / sgcfgk: "
+            "the real <pgp::Signer as Signing>::sign (fake secret-key operation for every accepted algorithm, and the four real keys) read back and compared "
+            "with mkConfig (version, type, algorithm, hash, sub-packet types in order, creation time, issuers, fingerprints) at 0, 2^31-1, 2^31, 2^32-1 …; "
+            "tsopt: chrono's timestamp_opt at the ends of its range. Thorough tier: every fresh signature (legacy tag bytes) is additionally "
             "checked with gpgv against a keyring holding only the claimed key. Non-trivial = start package accepted; distinct = distinct histories.",
     "exhaustive": True,
     "shards": {"quick": 8, "thorough": 16},
     "shrink": False,
     "no_widen": True,
+    # the generator is an exhaustive enumeration that never looks at the seed: re-running it under other seeds adds nothing
+    "no_escalate": True,
     "trusted_base": ["the OpenPGP implementation (pgp crate: sign, verify, issuer, base64) enters the theorems as the SigScheme hypotheses Correct, Binds, "
-                     "IssuerOk, B64, LegacyOk; it is exercised with the four real keys on every history and cross-checked with gpgv in the thorough tier",
+                     "IssuerOk, B64, LegacyOk; it is exercised with the four real keys on every history and cross-checked with gpgv in the thorough tier. "
+                     "For a PgpScheme (Model/SignE.lean: only the secret-key operation + packet serialisation `sealSig` and the packet reader `parse` are "
+                     "abstract) IssuerOk and LegacyOk are theorems; what is left is ParseSeal (a packet the signer wrote reads back with the configuration it "
+                     "was made from), Correct, Binds, B64",
+                     "chrono's DateTime::from_timestamp (range -262143-01-01 ..= +262142-12-31, leap-second notation) is transcribed in Sign.chronoTimestampOpt "
+                     "and compared with the crate at the ends of the range (op tsopt)",
                      "SHA-256 / SHA-1 / MD5 crates (parameters of the model; the driver recomputes all digests with its own implementations)",
                      "RSA signatures are memoised per (key, bytes, time) in the harness after checking that the real signer is a function of them"],
     "assumptions": COMMON_ASSUME + [
@@ -37,6 +72,10 @@ CFG = {
         "nothing is assumed about the start package's signature header (first_op_wf, run_total_any)",
         "SigRecsOk: base64 text is NUL-free UTF-8 and signature + text + digest text stay below 2 GiB (explicit hypothesis)",
         "PayloadDigestOk p0: the start package's own payload digest tags verify (they live in the untouched main header)",
+        "AlgOk S pubAlg (in place of LegacyOk in the _discharged / historyF_* theorems): the scheme's signatures parse and their algorithm selects the key's "
+        "legacy tag in the table scraped from SignatureHeaderBuilder::build — proved for the symbolic scheme and, from ParseSeal, for every PgpScheme",
+        "histories with failing attempts (historyF_*): every attempt is Quiet — its timestamp converts (otherwise the history panics there: runF_panics_at) "
+        "and a foreign signer's bytes are turned down by build()",
     ],
     "level_text": "Theorems by induction over operation lists of ANY length, for ANY signature scheme satisfying Correct / Binds / IssuerOk / B64 / LegacyOk, ANY "
                   "hash functions and ANY well-formed start package: the history never fails and its result is the start package with the signature header of "
@@ -49,7 +88,21 @@ CFG = {
                   "start hypotheses for the package PackageBuilder::build returns (build_metadata_wf, build_payload_digest_ok, build_unsigned) and instantiate the "
                   "history theorems there (built_history_*: build, then any sign / clear / write + re-parse sequence — digests verify after every history incl. the "
                   "empty one, exactly the last signer's key verifies and is reported, main header and payload byte-identical to the built ones), cover "
-                  "build_and_sign (build_sign_verifies / _keyids / _digests) and bundle everything in built_package_sound.",
+                  "build_and_sign (build_sign_verifies / _keyids / _digests) and bundle everything in built_package_sound. "
+                  "The signing side with its ways out (Model/SignE.lean): sign_with_timestamp = timestamp conversion (unwrap) → signer → SignatureHeaderBuilder::build "
+                  "→ ONE assignment; sign_outcomes lists every way out; on the success path it IS signOp (sign_success_eq), an Err leaves the package exactly as it "
+                  "was (sign_fail_unchanged), success replaces the signature header only (sign_ok_frame), it panics iff the SystemTime / DateTime is outside "
+                  "0..2^32 — before the signer is asked (sign_panics_iff = C17.timestamp_setter_panics_iff on Package), sign(s) = sign_with_timestamp(s, now) "
+                  "(sign_now_eq, sign_now_panics_iff), clear_signatures cannot fail (clear_total). Histories with refused attempts are the histories of their "
+                  "effective operations from ANY package (runF_eq_run), so every history theorem holds for them with 'last SUCCESSFUL signer' (historyF_*); no "
+                  "history panics unless a timestamp is out of range and then exactly there (runF_no_panic, runF_panics_at). Tables scraped from the source: "
+                  "every arm of build()'s algorithm match selects RPMSIGTAG_RSA / RPMSIGTAG_DSA for ALL algorithm numbers (legacyTagOf_range), so LegacyOk is "
+                  "discharged (legacyOk_discharged, *_discharged); a key Signer::new accepts converts back to its own algorithm and never meets "
+                  "UnsupportedPGPKeyType in build (signer_algs_subset, signer_tag_total), and the verifier loads it (verifier_accepts_signer_keys). The "
+                  "configuration pgp::Signer::sign assembles has exactly one Issuer and one IssuerFingerprint sub-packet and the given creation time "
+                  "(config_one_issuer, config_one_fingerprint, config_created_eq), timestamp_opt(..).unwrap() cannot panic for a u32 (timestamp_opt_total); hence "
+                  "IssuerOk / LegacyOk / AlgOk are theorems for every PgpScheme with ParseSeal (pgp_issuerOk, pgp_legacyOk, pgp_algOk, pgp_history_verify, "
+                  "pgp_history_keyids).",
     "level_note": "Trusted: Lean kernel; model fidelity as exercised (every record of every enumerated history predicted); the pgp crate behind the SigScheme "
                   "hypotheses (exercised with four real keys, gpgv as independent oracle in the thorough tier); hash crates.",
 }
